@@ -54,6 +54,13 @@ def make_requests(seed, tier):
         if gen.cost_units(s, 8) > BUDGET:
             continue
         reqs.append(("mut", gen.gen_phrase(rng, rng.choice([0, 8, 30])), s))
+    # empty fields: accepted spellings in which a decoder has nothing to decode - whatever it then uses instead
+    # (an unwritten buffer, the previous call's bytes) must not show in the answer
+    for m, s in (("yescrypt", b"$y$j5.$"), ("yescrypt", b"$y$j5.$$"), ("yescrypt", b"$y$.5/$"), ("gost_yescrypt", b"$gy$j5.$"),
+                 ("gost_yescrypt", b"$gy$j5.$$"), ("scrypt", b"$7$5/..../...."), ("scrypt", b"$7$5/..../....$"),
+                 ("md5crypt", b"$1$"), ("md5crypt", b"$1$$"), ("sha256crypt", b"$5$"), ("sha512crypt", b"$6$$"),
+                 ("sha512crypt", b"$6$rounds=1000$"), ("sunmd5", b"$md5$"), ("sunmd5", b"$md5,rounds=5$$"), ("nt", b"$3$")):
+        reqs.append((m, gen.gen_phrase(rng, rng.choice([0, 8, 30])), s))
     reqs.append(("fail", b"A" * 600, b"$6$salt"))
     reqs.append(("fail", b"pw", b"$9$unknown"))
     reqs.append(("fail", b"pw", b"*0"))
